@@ -93,9 +93,22 @@ func drawC16(t *rapid.T) *C16Case {
 	s.TwoPrologues = rapid.IntRange(0, 2).Draw(t, "twoprologues") == 0
 	if rapid.IntRange(0, 5).Draw(t, "ctrlit") == 0 {
 		// a line feed or tab between quotes is the only way to write those tokens as literals
+		// (not one whose code, 10 or 9, the specification gives to a named token)
+		var ctrl []string
+		for _, c := range []string{"\n", "\t"} {
+			free := true
+			for _, tm := range s.Terms {
+				if !tm.IsLit() && tm.Code == int(c[0]) {
+					free = false
+				}
+			}
+			if free {
+				ctrl = append(ctrl, c)
+			}
+		}
 		for i := range s.Terms {
-			if s.Terms[i].IsLit() {
-				s.Terms[i].Lit = rapid.SampledFrom([]string{"\n", "\t"}).Draw(t, "ctrl")
+			if s.Terms[i].IsLit() && len(ctrl) > 0 {
+				s.Terms[i].Lit = rapid.SampledFrom(ctrl).Draw(t, "ctrl")
 				break
 			}
 		}
